@@ -1808,12 +1808,19 @@ impl PatternFusion for GroupedQueryAttentionMatMulFusion {
         let mut alpha = None;
         let mut transpose_rhs = false;
 
-        if let Some(transpose_op) = pat_match
-            .node_id("transpose")
-            .and_then(|id| graph.get_operator::<Transpose>(id))
-            // Permute must transpose only last two dims
-            && transpose_op.perm.as_deref() == Some(&[0, 1, 3, 2])
-        {
+        if let Some(transpose_id) = pat_match.node_id("transpose") {
+            let transpose_op = graph
+                .get_operator::<Transpose>(transpose_id)
+                .ok_or(FusionError::NoMatch)?;
+
+            // Permute must transpose only last two dims. Other permutations
+            // can't be folded into the fused operator.
+            if transpose_op.perm.as_deref() != Some(&[0, 1, 3, 2]) {
+                return Err(FusionError::CheckFailed(
+                    "RHS transpose does not swap the last two dims",
+                ));
+            }
+
             transpose_rhs = true;
 
             if let Some(matmul) = pat_match
